@@ -78,6 +78,8 @@ def classify(c):
         if lb_predicate(c["args"], c["go"]):
             return dict(layer="correspondence", what="LeastBytes: model and code differ (tie-break?) but every pick was a minimum", input=None)
         return dict(layer="property", what="LeastBytes picked a partition that did not have the fewest bytes", input=c)
+    if op == "parts":
+        return dict(layer="property", what="the partition list the Writer offers to its balancer was not 0..n-1 (read while another caller grew the process-wide cache)", input=c)
     if op == "lbconc":
         return dict(layer="property", what="LeastBytes under concurrent use: spread is not that of any sequential order", input=c)
     if op == "rrconc":
